@@ -157,6 +157,7 @@ def run_ui(trace, prop, seed=None):
     total_steps = 0
     i = 0
     performed = 0
+    prev_sig = None
     while i < n_events and not sub.dead:
         if generating:
             ev = _user_choice(r, ui, isa, None)
@@ -172,7 +173,11 @@ def run_ui(trace, prop, seed=None):
         hs.add("ev", ev["act"], bool(done), ui.loop.now)
         if done:
             performed += 1
-            res.states.add(hash((ev["act"], bool(ui.store.isRunning), bool(ui.store.error), bool(ui.store.isDone), bool(ui.store.hasStarted))))
+            sig = hash((ev["act"], bool(ui.store.isRunning), bool(ui.store.error), bool(ui.store.isDone), bool(ui.store.hasStarted),
+                        bool(ui.editor.hasUnparsedChanges), ui.store.nextCycle))
+            res.states.add(sig)
+            res.trans.add(hash((prev_sig, sig)))
+            prev_sig = sig
             if ev["act"] == "reset" or ev["act"] == "setting":
                 res.faults["F-reset"] += 1
                 if running_before:
@@ -289,10 +294,15 @@ class UiEpisodes(Batch):
 # API mode
 
 
-def gen_api(seed, isa=None, flavour=None):
+def gen_api(seed, isa=None, flavour=None, force=None):
     r = R.stream(seed, "config")
     settings = gen_settings(r, isa)
     isa = settings["isa"]
+    for k, v in (force or {}).items():
+        if isinstance(v, dict):
+            settings[k].update(v)
+        else:
+            settings[k] = v
     r = R.stream(seed, "ops")
     flavour = flavour or r.choice(["lifecycle", "lifecycle", "inspect", "loads", "reload"] + (["halfsteps"] * 3 if isa == "toy" else []))
     if flavour == "reload" and isa == "riscv":
@@ -402,6 +412,7 @@ def run_api(trace, prop):
     watch = None
     steps = 0
     performed = 0
+    prev_sig = None
     for i, op in enumerate(trace["ops"]):
         if sub.dead:
             break
@@ -476,7 +487,10 @@ def run_api(trace, prop):
             watch = None
             res.faults["F-reset"] += 1
             continue
-        res.states.add(hash((kind, sub.loaded_ok, sub.faulted, sub.was_done, bool(getattr(sub.sut, "has_started", False)))))
+        sig = hash((kind, sub.loaded_ok, sub.faulted, sub.was_done, bool(getattr(sub.sut, "has_started", False))))
+        res.states.add(sig)
+        res.trans.add(hash((prev_sig, sig)))
+        prev_sig = sig
         if (i % cmp_every == 0) or i == len(trace["ops"]) - 1:
             sub.compare()
     if not sub.dead:
@@ -493,15 +507,16 @@ class ApiEpisodes(Batch):
     engine = "lifesim"
     per_run_timeout_s = 60.0
 
-    def __init__(self, name, runs_quick, runs_thorough, isa=None, flavour=None):
+    def __init__(self, name, runs_quick, runs_thorough, isa=None, flavour=None, force=None):
         self.name = name
         self.runs_quick = runs_quick
         self.runs_thorough = runs_thorough
         self.isa = isa
         self.flavour = flavour
+        self.force = force
 
     def generate(self, seed):
-        return gen_api(seed, self.isa, self.flavour)
+        return gen_api(seed, self.isa, self.flavour, self.force)
 
     def execute(self, trace, prop):
         return run_api(trace, prop)
